@@ -1,6 +1,7 @@
 package vm
 
 import (
+	"bytes"
 	"math/big"
 
 	"github.com/pkg/errors"
@@ -109,6 +110,18 @@ func (vm *VM) applyBlock(block *nom.AccountBlock) error {
 		computed := generated.ComputeHash()
 		if computed != block.Hash {
 			return errors.Errorf("auto-received block has different hash expected %v but got %v", computed, generated)
+		}
+		// the hash does not cover every field (plasma fields, descendant bodies): the block must be the generated one in full
+		expected, err := generated.Serialize()
+		if err != nil {
+			return err
+		}
+		received, err := block.Serialize()
+		if err != nil {
+			return err
+		}
+		if !bytes.Equal(expected, received) {
+			return errors.Errorf("auto-received block %v differs from the one generated locally", block.Header())
 		}
 		return nil
 	default:
